@@ -23,6 +23,7 @@ using SB = mb::mbox<Cfg>;
 using sbx_t = rlbox::rlbox_sandbox<SB>;
 template<class T>
 using tn = rlbox::tainted<T, SB>;
+using PtrT = uint16_t;
 static const uint64_t kSize = SB::kSize;
 static sbx_t *g_sb, *g_other;
 static uintptr_t g_base, g_obase;
@@ -49,9 +50,12 @@ enum Mut
   M_FLIP,       // xor every byte of the source window with 0xFF
   M_FLIP1,      // xor byte 0 of every element / the first byte
   M_OVERWRITE,  // overwrite the whole window with 0xEE
+  M_REDIR_B,    // (receiver is a pointer cell in sandbox memory) point the cell at a second interior object
+  M_REDIR_END,  // ... at the last element of the region (a range from there leaves the region)
+  M_REDIR_NULL, // ... store the null representation
   M_N
 };
-static const char* mutn[] = { "lengthen", "nul-at-0", "nul-in-middle", "remove-all-nul", "flip-all", "flip-first-byte", "overwrite-EE" };
+static const char* mutn[] = { "lengthen", "nul-at-0", "nul-in-middle", "remove-all-nul", "flip-all", "flip-first-byte", "overwrite-EE", "redirect-to-B", "redirect-to-last-element", "redirect-to-null" };
 struct Event
 {
   int point;
@@ -64,6 +68,8 @@ struct Scenario
   uint64_t win_off = 0, win_len = 0; // window whose versions are recorded
   bool is_string = false;
   bool no_room = false; // the string ends on the last byte of the region: lengthening = removing its terminator
+  // receiver = pointer cell in sandbox memory (tainted_volatile<T*>): where the cell is and where the adversary can point it
+  uint64_t cell_off = 0, redir_b = 0, redir_end = 0;
 };
 static Scenario g_sc;
 static std::vector<Event> g_script;
@@ -103,6 +109,9 @@ static void apply(int m)
       break;
     case M_FLIP1: s[0] ^= 0xFF; break;
     case M_OVERWRITE: memset(g_mem + g_sc.win_off, 0xEE, g_sc.win_len); break;
+    case M_REDIR_B: { PtrT r = (PtrT)g_sc.redir_b; memcpy(g_mem + g_sc.cell_off, &r, sizeof r); break; }
+    case M_REDIR_END: { PtrT r = (PtrT)g_sc.redir_end; memcpy(g_mem + g_sc.cell_off, &r, sizeof r); break; }
+    case M_REDIR_NULL: { PtrT r = 0; memcpy(g_mem + g_sc.cell_off, &r, sizeof r); break; }
   }
   snapshot_version();
 }
@@ -501,6 +510,147 @@ static void variant_address(uint64_t off, uint64_t& idx)
   explore("copy_and_verify_address", tag, setup, body, { M_FLIP, M_OVERWRITE }, idx);
 }
 
+// ---- receivers that are pointer CELLS in sandbox memory (tainted_volatile<T*>) -------------------------------
+// The adversary can also re-point the cell between RLBox's reads of it. Whatever it does, the verifier must receive
+// either nothing (abort) or content that was read inside the region from an address the cell held, and an address
+// verifier must receive an address the cell held whose checked extent lies inside the region.
+template<class T, int GW>
+static void variant_cell(uint64_t& idx)
+{
+  const uint64_t CELL = 0x2000, A = 0x4000, B = 0x5000, END = kSize - GW;
+  const size_t count = 2;
+  std::string tag = std::string("cell<") + tname<T>() + "*>";
+  auto setup = [=] {
+    g_sc = Scenario{ A, count * GW, A - 16, count * GW + 48, false };
+    g_sc.cell_off = CELL;
+    g_sc.redir_b = B;
+    g_sc.redir_end = END;
+    memset(g_mem + A - 16, 0x11, count * GW + 48);
+    memset(g_mem + B - 16, 0x22, count * GW + 48);
+    memset(g_mem + END - 16, 0x33, GW + 16);
+    for (size_t i = 0; i < count * GW; i++) {
+      g_mem[A + i] = (uint8_t)(0x41 + i * 3);
+      g_mem[B + i] = (uint8_t)(0x61 + i * 5);
+    }
+    for (int i = 0; i < GW; i++) g_mem[END + i] = (uint8_t)(0x71 + i);
+    PtrT r = (PtrT)A;
+    memcpy(g_mem + CELL, &r, sizeof r);
+  };
+  // reference contents (guest bytes are written by setup, never by the adversary before the verifier starts)
+  auto ref = [=](uint64_t at, size_t i) {
+    u128 u = 0;
+    for (int k = 0; k < GW; k++) {
+      uint8_t b = at == A ? (uint8_t)(0x41 + (i * GW + k) * 3) : at == B ? (uint8_t)(0x61 + (i * GW + k) * 5) : (uint8_t)(0x71 + k);
+      u |= (u128)b << (8 * k);
+    }
+    if (std::is_signed_v<T> && GW < 16 && ((u >> (8 * GW - 1)) & 1)) u |= ~(u128)0 << (8 * GW); // the guest object is GW bytes wide
+    return (T)(i128)u;
+  };
+  auto held = [=](size_t i, T v) { return v == ref(A, i) || v == ref(B, i) || (i == 0 && v == ref(END, 0)); };
+  {
+    Variant body = [=](Verdict& vd) {
+      auto pp = sp<T*>(CELL);
+      (*pp).copy_and_verify_range(
+        [&](std::unique_ptr<T[]> v) {
+          if (!v) return 0; // the cell was null when it was read
+          if (!outside_all(v.get(), count * sizeof(T))) vd.problems.push_back("verifier-object-in-sandbox: buffer lies in sandbox memory");
+          uint64_t h0 = fnv(v.get(), count * sizeof(T));
+          verifier_entry_attack();
+          if (fnv(v.get(), count * sizeof(T)) != h0) vd.problems.push_back("changed-during-verifier: content changed");
+          for (size_t i = 0; i < count; i++)
+            if (!held(i, v[i]) && !in_history(i * GW, GW, (i128)v[i])) vd.problems.push_back("value-never-held: element " + std::to_string(i) + " = " + str((i128)v[i]) + " was not read from an address the cell held");
+          return 0;
+        },
+        count);
+    };
+    explore("copy_and_verify_range(cell)", tag, setup, body, { M_REDIR_B, M_REDIR_END, M_REDIR_NULL, M_FLIP }, idx);
+  }
+  {
+    Variant body = [=](Verdict& vd) {
+      auto pp = sp<T*>(CELL);
+      (*pp).copy_and_verify([&](std::unique_ptr<T> v) {
+        if (!v) return 0;
+        if (!outside_all(v.get(), sizeof(T))) vd.problems.push_back("verifier-object-in-sandbox: object lies in sandbox memory");
+        T seen = *v;
+        verifier_entry_attack();
+        if (*v != seen) vd.problems.push_back("changed-during-verifier: content changed");
+        if (!held(0, seen) && !in_history(0, GW, (i128)seen)) vd.problems.push_back("value-never-held: " + str((i128)seen));
+        return 0;
+      });
+    };
+    explore("copy_and_verify(pointer cell)", tag, setup, body, { M_REDIR_B, M_REDIR_END, M_REDIR_NULL, M_FLIP }, idx);
+  }
+  {
+    Variant body = [=](Verdict& vd) {
+      auto pp = sp<T*>(CELL);
+      auto okaddr = [&](uintptr_t v, size_t ext, const char* what) {
+        if (v == 0) return;
+        if (v != g_base + A && v != g_base + B && v != g_base + END) vd.problems.push_back(std::string("address-never-held: ") + what + " received an address the cell never held");
+        else if (v < g_base || v + ext > g_base + kSize) vd.problems.push_back(std::string("address-extent-unchecked: ") + what + " received an address whose " + std::to_string(ext) + "-byte extent leaves the region (the address that was range-checked is not the one delivered)");
+      };
+      (*pp).copy_and_verify_address([&](uintptr_t v) { okaddr(v, 1, "copy_and_verify_address"); return 0; });
+      (*pp).copy_and_verify_buffer_address([&](uintptr_t v) { okaddr(v, count * GW, "copy_and_verify_buffer_address"); return 0; }, count * GW);
+    };
+    explore("copy_and_verify_address(cell)", tag, setup, body, { M_REDIR_B, M_REDIR_END, M_REDIR_NULL }, idx);
+  }
+}
+
+// string receiver in a cell
+static void variant_cell_string(uint64_t& idx)
+{
+  const uint64_t CELL = 0x2000, A = 0x4000, B = 0x5000, END = kSize - 1;
+  std::string tag = "cell<char*> string";
+  auto setup = [=] {
+    g_sc = Scenario{ A, 4, A - 16, 4 + 48, true };
+    g_sc.cell_off = CELL;
+    g_sc.redir_b = B;
+    g_sc.redir_end = END;
+    memset(g_mem + A - 16, 'x', 4 + 48);
+    memset(g_mem + B - 16, 'y', 4 + 48);
+    memcpy(g_mem + A, "abc", 4);
+    memcpy(g_mem + B, "PQRSTUVW", 9);
+    g_mem[END] = 0; // an empty string on the last byte of the region
+    g_mem[END - 1] = 'Z';
+    PtrT r = (PtrT)A;
+    memcpy(g_mem + CELL, &r, sizeof r);
+  };
+  for (int kind = 0; kind < 2; kind++) {
+    Variant body = [=](Verdict& vd) {
+      auto pp = sp<char*>(CELL);
+      auto judge = [&](const char* buf, size_t n, bool have_bytes) {
+        if (!g_seen_strlen) return;
+        if (n + 1 > g_checked_len) vd.problems.push_back("string-longer-than-checked: length " + std::to_string(n) + " > checked " + std::to_string(g_checked_len));
+        if (have_bytes) {
+          bool nul = false;
+          for (size_t i = 0; i < g_checked_len; i++)
+            if (buf[i] == 0) nul = true;
+          if (!nul) vd.problems.push_back("string-unterminated: no NUL inside the checked length");
+        }
+      };
+      if (kind == 0)
+        (*pp).copy_and_verify_string([&](std::unique_ptr<char[]> sbuf) {
+          if (!sbuf) return 0;
+          if (!outside_all(sbuf.get(), g_checked_len)) vd.problems.push_back("verifier-object-in-sandbox: string buffer lies in sandbox memory");
+          uint64_t h0 = fnv(sbuf.get(), g_checked_len);
+          verifier_entry_attack();
+          if (fnv(sbuf.get(), g_checked_len) != h0) vd.problems.push_back("changed-during-verifier: string changed");
+          judge(sbuf.get(), strnlen(sbuf.get(), g_checked_len + 64), true);
+          return 0;
+        });
+      else
+        (*pp).copy_and_verify_string([&](std::string str) {
+          if (!outside_all(str.data(), str.size() + 1)) vd.problems.push_back("verifier-object-in-sandbox: std::string storage lies in sandbox memory");
+          std::string seen = str;
+          verifier_entry_attack();
+          if (str != seen) vd.problems.push_back("changed-during-verifier: string changed");
+          judge(str.data(), str.size(), false);
+          return 0;
+        });
+    };
+    explore(kind == 0 ? "copy_and_verify_string(cell, unique_ptr<char[]>)" : "copy_and_verify_string(cell, std::string)", tag, setup, body, { M_REDIR_B, M_REDIR_END, M_REDIR_NULL }, idx);
+  }
+}
+
 static void variant_deny(uint64_t off, size_t n, uint64_t& idx)
 {
   std::string tag = "deny x" + std::to_string(n) + "@" + std::to_string(off);
@@ -563,6 +713,10 @@ int main(int argc, char** argv)
     variant_deny(off + 8, 8, idx);
     variant_deny(off + 15, 1, idx);
   }
+  variant_cell<char, 1>(idx);
+  variant_cell<int, 4>(idx);
+  variant_cell<long, 4>(idx);
+  variant_cell_string(idx);
   variant_struct(0x4000, idx);
   variant_struct(kSize - sizeof(VS_lp32_p16), idx);
   for (uint64_t len = 0; len <= 3; len++) {
